@@ -5,7 +5,7 @@
     (step.c scanning primitives), over Map/MapModel.v (C10) and Xlat/Step.v (C02). *)
 From Coq Require Import NArith ZArith List Bool Lia.
 From KdV Require Import Base.Wrap64 Map.MapModel Map.MapSpec Xlat.Step Xlat.ArchSpec
-  Sys.LayoutModel Sys.LayoutSpec Sys.LayoutProofs Sys.ScanModel Sys.LinuxX86Model Sys.LinuxX86Proofs.
+  Sys.LayoutModel Sys.LayoutSpec Sys.LayoutProofs Sys.ScanModel Sys.ScanProofs Sys.LinuxX86Model Sys.LinuxX86Proofs Xlat.WalkProofs Xlat.FmtX86.
 Import ListNotations.
 Local Open Scope N_scope.
 
@@ -59,11 +59,46 @@ Print Assumptions C08_set_layout_regions.
 
 (** * Scanning primitives
 
-    Partial: what is proved about [highest_linear] is that a successful answer
-    was preceded by the offset test at the first mapped address; the full
-    specifications ("least / greatest mapped address in the range or
-    NOTPRESENT", Sys/ScanSpec.v) are evaluated on the implementation and on
-    the model by the correspondence check, not proved. *)
+    Partial: proved are (a) soundness of [lowest_mapped] for every PTE format
+    whose next-step function simulates its decoder (C02's [sim]; instance:
+    x86-64): an address it returns lies between the page-aligned start and the
+    limit, shares the sign-extension bits of the start, is mapped by the
+    architectural walk of the table tree, and the returned step holds its
+    translation; (b) that a successful [highest_linear] tested the offset at the
+    first mapped address.  That the returned address is the *least* mapped one,
+    and the specifications of [highest_mapped] / [lowest_unmapped]
+    (Sys/ScanSpec.v) are evaluated on the implementation and on the model by the
+    correspondence check, not proved. *)
+Theorem C08_scan_lowest_mapped_sound_partial :
+  forall readmem af tgt mask pf ras root,
+  (forall va, sim readmem af tgt mask pf va) ->
+  (forall a x, readmem a x <> RdErr OK) ->
+  all_lt64 (fieldsz pf) = true -> total (fieldsz pf) <= 64 -> (2 <= length (fieldsz pf) <= 8)%nat ->
+  (forall l e va a b sh, af_decode af tgt (fieldsz pf) l e va <> DHugeDir a b sh) ->
+  (forall l e va va', af_decode af tgt (fieldsz pf) l e va = af_decode af tgt (fieldsz pf) l e va') ->
+  (forall j, (j < length (fieldsz pf))%nat -> 1 <= nth j (fieldsz pf) 0) ->
+  forall limit lf addr0 s' r,
+  pte_size (pte_format pf) = Some (af_ptesz af) -> addr0 < 2^64 ->
+  lowest_mapped readmem {| m_kind := KPgt ras root mask pf; m_target := tgt |} pf lf addr0 limit = (OK, s', r) ->
+  addr0 / 2^(nth 0 (fieldsz pf) 0) * 2^(nth 0 (fieldsz pf) 0) <= r /\ r <= limit /\ r < 2^64 /\
+  r / 2^(total (fieldsz pf)) = addr0 / 2^(total (fieldsz pf)) /\
+  arch_levels readmem af tgt mask (fieldsz pf) r (length (fieldsz pf) - 1) ras root
+    = (OK, Some (tgt, s_base s')) /\ s_as s' = tgt.
+Proof. exact lowest_mapped_sound. Qed.
+Print Assumptions C08_scan_lowest_mapped_sound_partial.
+
+Theorem C08_scan_lowest_mapped_sound_x86_64_partial :
+  forall readmem tgt mask pf ras root limit lf addr0 s' r,
+  pte_format pf = PTE_X86_64 -> x86_64_form (fieldsz pf) ->
+  (forall a x, readmem a x <> RdErr OK) -> addr0 < 2^64 ->
+  lowest_mapped readmem {| m_kind := KPgt ras root mask pf; m_target := tgt |} pf lf addr0 limit = (OK, s', r) ->
+  addr0 / 2^12 * 2^12 <= r /\ r <= limit /\ r < 2^64 /\
+  r / 2^(total (fieldsz pf)) = addr0 / 2^(total (fieldsz pf)) /\
+  arch_levels readmem af_x86_64 tgt mask (fieldsz pf) r (length (fieldsz pf) - 1) ras root
+    = (OK, Some (tgt, s_base s')) /\ s_as s' = tgt.
+Proof. exact x86_64_lowest_mapped_sound. Qed.
+Print Assumptions C08_scan_lowest_mapped_sound_x86_64_partial.
+
 Theorem C08_scan_highest_linear_tests_offset_partial :
   forall readmem m pf kv fuel lf addr limit off e,
   highest_linear readmem m pf kv fuel lf addr limit off = (OK, e) ->
